@@ -124,7 +124,7 @@ class Pair:
         for sub in list(self.consumer.subscription_mgr.subscriptions.values()):
             sub.renew(seconds)
 
-    def stop(self):
+    def stop(self, send_subscription_end=False):
         """Stop without waiting for the 1 s sleep loops of the (daemon) housekeeping / renew threads."""
         class _NoJoin:
             def join(self, timeout=None):
@@ -140,4 +140,4 @@ class Pair:
             for mgr in self.provider._subscriptions_managers.values():  # noqa: SLF001
                 mgr._run_housekeeping_thread = False  # noqa: SLF001
                 mgr._housekeeping_thread = _NoJoin()  # noqa: SLF001
-            self.provider.stop_all(send_subscription_end=False)
+            self.provider.stop_all(send_subscription_end=send_subscription_end)
